@@ -40,6 +40,7 @@ type WorkerDone struct {
 	PerScen    map[string]int `json:"per_scenario"`
 	Bounds     map[string]int `json:"bounds"`
 	Pruned     int            `json:"pruned"`
+	Races      int            `json:"race_reports"`
 }
 
 // RunWorker explores this shard's share of every scenario of the property.
@@ -51,11 +52,24 @@ func RunWorker(prop, tier string, shard, nshards int, deadline time.Time) int {
 	}
 	done := WorkerDone{Outcomes: map[string]int{}, Notes: map[string]int{}, Complete: true, PerScen: map[string]int{}, Bounds: map[string]int{}}
 	keys := map[uint64]struct{}{}
+	rl := newRaceLog()
+	raceSeen := map[string]bool{}
 	for _, pl := range pf(tier) {
 		sc := pl.Sc
 		done.Bounds[sc.Name] = pl.Bound
 		stats := NewStats()
 		report := func(choices []int, x *vsched.Exec, v Verdict) {
+			for _, rep := range rl.drain() {
+				done.Races++
+				sig := raceSignature(rep)
+				if raceSeen[sig] {
+					continue
+				}
+				raceSeen[sig] = true
+				emit("V", explore.VRec{Property: prop, Tier: tier, Family: "sched:" + sc.Name, Index: -1, Size: len(choices),
+					Desc:   map[string]any{"scenario": sc.Name, "description": sc.Desc, "schedule_choices": choices, "preemption_bound": pl.Bound},
+					Clause: "data-race", Detail: "frames: " + sig + "\n" + clipReport(rep, 60), Reruns: 5})
+			}
 			for _, viol := range v.Violations {
 				// determinism: the same schedule must fail the same way every time
 				same := 1
